@@ -505,9 +505,11 @@ func verifyFunc(prog *ssa.Program, spkg *ssa.Package, contracts *Contracts, fn *
 	fc.contract = c
 	// global axioms
 	genv := &Env{tr: tr, vars: map[string]*Val{}, st: tr.cur, old: tr.cur}
+	tr.axiomFrom = len(tr.facts)
 	for _, ax := range contracts.Axioms {
 		tr.fact(genv.eval(ax.E).E())
 	}
+	tr.axiomTo = len(tr.facts)
 	// laws of spec functions that name the result of a verified pure function (defines result == f(params))
 	// parameters
 	for i, p := range fn.Params {
